@@ -66,7 +66,7 @@ extern int mpt_iterator_consume(MPT_INTERFACE(iterator) *it, MPT_TYPE(type) type
 	}
 	/* save origin type, iterator advance invalidates value pointer */
 	type = val->_type;
-	if ((ret = it->_vptr->advance(it) < 0)) {
+	if ((ret = it->_vptr->advance(it)) < 0) {
 		return ret;
 	}
 	if (dest) {
